@@ -206,6 +206,9 @@ Inductive op :=
 Inductive out :=
 | ONone | OSkip | OId (n : nat) | OSlot (k : nat) | OVal (a b : Z) | OList (l : option (list Z)).
 
+(* the destructor zeroes its column before it releases the instance id (statement order, regenerated) *)
+Definition dtor_zero_first : bool := negb (Z.eqb dtor_zero_before_release 0).
+
 Definition new_inst (cf : cfg) (x : st) (c : nat) : st * nat :=
   let '(iid, a) := id_alloc (iids x) in
   let i := {| i_iid := iid;
@@ -246,9 +249,11 @@ Definition step (cf : cfg) (x : st) (o : op) : st * out :=
       match chnd x c with
       | None => (x, OSkip)
       | Some i =>
-          (* ~CompactEnumerableThreadLocal: value[offset] = T() in every visited line, then release the id *)
-          let x1 := set_cmem x (fill (cmem x) (i_sto i) (each_bound x (i_sto i)) (Z.to_nat (dtor_zero_index (Z.of_nat (i_off i)))) (czero (ck cf))) in
-          (set_chnd (set_iids x1 (id_free (iids x1) (i_iid i))) (upd (chnd x1) c None), ONone)
+          (* ~CompactEnumerableThreadLocal: value[offset] = T() in every visited line and release of the id, in the
+             order of the source (sequentially both orders give the same state; concurrently see dstep below) *)
+          let zero := fun x0 : st => set_cmem x0 (fill (cmem x0) (i_sto i) (each_bound x0 (i_sto i)) (Z.to_nat (dtor_zero_index (Z.of_nat (i_off i)))) (czero (ck cf))) in
+          let rel := fun x0 : st => set_chnd (set_iids x0 (id_free (iids x0) (i_iid i))) (upd (chnd x0) c None) in
+          (if dtor_zero_first then rel (zero x) else zero (rel x), ONone)
       end
   | CMove c d =>
       match chnd x c, chnd x d with
@@ -347,3 +352,49 @@ Definition rstep (x : rst) (t : nat) : option rst :=
   else None.
 Definition rinit (slots : list Z) (prog : list (list Z)) : rst :=
   {| r_slots := slots; r_prog := prog; r_pos := 0; r_acc := 0%Z; r_lo := 0%Z; r_started := false |}.
+
+(* ------------------------------------------- destructor of X racing with constructor + counting of another instance *)
+(* Thread 0 runs ~CompactEnumerableThreadLocal of the instance with id xid: the zeroing sweep over the n lines (one
+   store per step) and the release of the id, in the ORDER the source has them (dtor_zero_before_release, regenerated).
+   Thread 1 constructs a new instance (one pop of the LIFO allocator) and counts the values of its program into its
+   own line kb (one store per step).  dm j k = content of line k at the (storage, offset) of instance id j. *)
+Record dst := {
+  dm : nat -> nat -> Z;
+  d_ids : ids;
+  d_pos : nat;            (* lines [0, d_pos) swept *)
+  d_rel : bool;           (* id released *)
+  d_y : option nat;       (* id the new instance got *)
+  d_todo : list Z;        (* values still to count *)
+  d_added : Z             (* ghost: what the new instance's owner has counted so far *)
+}.
+Definition upd2 (m : nat -> nat -> Z) (j k : nat) (v : Z) : nat -> nat -> Z :=
+  fun j' k' => if Nat.eqb j' j && Nat.eqb k' k then v else m j' k'.
+Definition d_sweep (n xid : nat) (x : dst) : option dst :=
+  if Nat.ltb (d_pos x) n
+  then Some {| dm := upd2 (dm x) xid (d_pos x) adder_reset_value; d_ids := d_ids x; d_pos := S (d_pos x); d_rel := d_rel x;
+               d_y := d_y x; d_todo := d_todo x; d_added := d_added x |}
+  else None.
+Definition d_release (xid : nat) (x : dst) : option dst :=
+  if d_rel x then None
+  else Some {| dm := dm x; d_ids := id_free (d_ids x) xid; d_pos := d_pos x; d_rel := true;
+               d_y := d_y x; d_todo := d_todo x; d_added := d_added x |}.
+Definition dstep (n xid kb : nat) (x : dst) (t : nat) : option dst :=
+  match t with
+  | 0 => if dtor_zero_first
+         then (if Nat.ltb (d_pos x) n then d_sweep n xid x else d_release xid x)
+         else (if d_rel x then d_sweep n xid x else d_release xid x)
+  | 1 => match d_y x with
+         | None => let '(y, a) := id_alloc (d_ids x) in
+                   Some {| dm := dm x; d_ids := a; d_pos := d_pos x; d_rel := d_rel x;
+                           d_y := Some y; d_todo := d_todo x; d_added := d_added x |}
+         | Some y => match d_todo x with
+                     | [] => None
+                     | v :: r => Some {| dm := upd2 (dm x) y kb (adder_step (dm x y kb) v); d_ids := d_ids x;
+                                         d_pos := d_pos x; d_rel := d_rel x; d_y := Some y; d_todo := r;
+                                         d_added := (d_added x + v)%Z |}
+                     end
+         end
+  | _ => None
+  end.
+Definition dinit (m0 : nat -> nat -> Z) (a : ids) (vs : list Z) : dst :=
+  {| dm := m0; d_ids := a; d_pos := 0; d_rel := false; d_y := None; d_todo := vs; d_added := 0%Z |}.
